@@ -485,7 +485,7 @@ class _TimedQueue(object):
         if not block:
             return self.q.get(False)
         try:
-            return self.q.get(True, 1.5)
+            return self.q.get(True, 20)
         except queue.Empty:
             raise WouldBlock("blocking read of the incoming segment queue although it is empty and nobody will fill it")
 
@@ -510,7 +510,7 @@ def h_two_flushers(ctx):
     obs = [("a frame arriving during the handshake is queued, not delivered", len(top.up) == 0)]
     stub.state = "transport"
     noise._incoming_segments_queue = _TimedQueue(noise._incoming_segments_queue)
-    RecLock.WAIT_S = 4
+    RecLock.WAIT_S = 30
     paused, resume = threading.Event(), threading.Event()
     errors = {}
     fname = sys.modules[type(noise).__module__].__file__
@@ -530,7 +530,7 @@ def h_two_flushers(ctx):
             if event == "line":
                 if seen[0] == k and not paused.is_set():
                     paused.set()
-                    resume.wait(6)
+                    resume.wait(90)
                 seen[0] += 1
             return tracer
         if gated:
@@ -548,12 +548,12 @@ def h_two_flushers(ctx):
     t2 = threading.Thread(target=run, args=(second, False), daemon=True)
     try:
         t1.start()
-        paused.wait(6)
+        paused.wait(60)
         t2.start()
         t2.join(0.3)                                  # runs to completion unless it has to wait for the pre-empted thread
         resume.set()
-        t1.join(12)
-        t2.join(12)
+        t1.join(90)
+        t2.join(90)
     finally:
         RecLock.WAIT_S = 0
         resume.set()
